@@ -6,14 +6,18 @@ package c02
 import (
 	"bufio"
 	"encoding/json"
+	"fmt"
 	"io"
 	"os"
 	"os/exec"
 	"runtime/debug"
+	"strings"
 	"sync"
 	"sync/atomic"
 	"syscall"
 	"time"
+
+	"github.com/php-any/origami/data"
 
 	"verif/harness/vh"
 )
@@ -79,26 +83,74 @@ func init() {
 	})
 }
 
-func runSourceFresh(src string) implRes {
+// outputCap bounds what one program may print: a runaway loop must not fill memory.
+const outputCap = 256 << 10
+
+type outputLimit struct{}
+
+// runSourceFresh parses and runs src on a brand-new VM (the way vh.RunSource does), with the
+// captured output capped: past the cap the run is aborted and reported as status "output-limit".
+func runSourceFresh(src string) (res implRes) {
 	env := vh.NewEnv()
-	o := env.RunSource(src, "/verif-c02.php")
-	res := implRes{Out: o.Out, Detail: o.Detail}
-	switch {
-	case o.Kind == "ok" && len(env.Thrown) == 0:
-		res.Status = "done"
-	case o.Kind == "ok" || o.Kind == "uncaught":
-		res.Status = "error"
-		if len(env.Thrown) > 0 {
-			res.Detail = firstLine(env.Thrown[0])
+	var sb strings.Builder
+	old := data.WriteOutput
+	data.WriteOutput = func(s string) {
+		if sb.Len()+len(s) > outputCap {
+			panic(outputLimit{})
 		}
-	default:
-		res.Status = o.Kind
+		sb.WriteString(s)
 	}
-	return res
+	defer func() {
+		data.WriteOutput = old
+		res.Out = sb.String()
+		if r := recover(); r != nil {
+			switch x := r.(type) {
+			case outputLimit:
+				res.Status = "output-limit"
+			case data.Control:
+				res.Status = "error"
+				res.Detail = firstLine(x.AsString())
+			default:
+				res.Status = "go-panic"
+				res.Detail = firstLine(fmt.Sprint(r))
+			}
+		}
+	}()
+	p := env.Parser.Clone()
+	prog, acl := p.ParseString(src, "/verif-c02.php")
+	if acl != nil {
+		res.Status = "parse-error"
+		res.Detail = firstLine(acl.AsString())
+		return
+	}
+	vars := p.GetVariables()
+	ctx := env.VM.CreateContext(vars)
+	if env.Raw != nil {
+		env.Raw.RegisterGlobalContext(vars, ctx)
+	}
+	_, ctl := prog.GetValue(ctx)
+	if data.FlushAllBuffersFn != nil {
+		data.FlushAllBuffersFn()
+	}
+	switch {
+	case ctl != nil:
+		res.Status = "error"
+		res.Detail = firstLine(ctl.AsString())
+	case len(env.Thrown) > 0:
+		res.Status = "error"
+		res.Detail = firstLine(env.Thrown[0])
+	default:
+		res.Status = "done"
+	}
+	return
 }
 
 func childRun(args []string) int {
-	debug.SetMaxStack(512 << 20)
+	debug.SetMaxStack(256 << 20)
+	debug.SetMemoryLimit(1 << 30)
+	// hard ceiling on the address space of this child: a runaway script kills only its own process
+	lim := syscall.Rlimit{Cur: 6 << 30, Max: 6 << 30}
+	syscall.Setrlimit(syscall.RLIMIT_AS, &lim)
 	// the protocol goes to a private duplicate of fd 1; whatever the interpreter prints straight to
 	// os.Stdout (var_dump, notices) ends in /dev/null instead of being read as an answer
 	proto := vh.ProtocolStdout()
